@@ -19,8 +19,8 @@ META = {
     "bounds": {
         "quick": {"paths": "length<=1 over 42 parts, length 2 over a 20-part sub-alphabet, length 3 over a 7-part sub-alphabet",
                   "documents": "F-struct(4) + F-type flat/two-level + F-deep (asymmetric 3-4 level documents)"},
-        "thorough": {"paths": "length<=2 over 42 parts; length 3 over a 12-part sub-alphabet; length 4 over a 7-part sub-alphabet",
-                     "documents": "F-struct(4) + F-type + F-deep for length<=2; F-struct(5) + F-deep for length 3; F-deep + F-type for length 4"},
+        "thorough": {"paths": "length<=2 over 42 parts; length 3 over a 12-part and a 7-part sub-alphabet; length 4 over the 7-part sub-alphabet",
+                     "documents": "F-struct(4) + F-type + F-deep for length<=2 and for length 3 over 12 parts; F-struct(5) + F-deep for length 3 over 7 parts; F-deep + F-type for length 4"},
     },
 }
 
@@ -30,7 +30,9 @@ def path_list(tier):
         ps = list(gen.paths(1, gen.PARTS)) + [p for p in gen.paths(2, gen.PARTS20) if len(p[1]) == 2]
         return [(p, "s4t") for p in ps] + [(p, "deep") for p in gen.paths(3, gen.PARTS7) if len(p[1]) == 3]
     ps = [(p, "s4t") for p in gen.paths(2, gen.PARTS)]
-    ps += [(p, "s5") for p in gen.paths(3, gen.PARTS12) if len(p[1]) == 3]
+    # length 3: the 7-part sub-alphabet on all of F-struct(5); the 12-part one on F-struct(4) + F-type + F-deep
+    ps += [(p, "s5") for p in gen.paths(3, gen.PARTS7) if len(p[1]) == 3]
+    ps += [(p, "s4t") for p in gen.paths(3, gen.PARTS12) if len(p[1]) == 3]
     ps += [(p, "deep") for p in gen.paths(4, gen.PARTS7) if len(p[1]) == 4]
     return ps
 
